@@ -80,8 +80,8 @@ theorem liftTok_notPanic {hist : List Tok} {stack : List StackItem} {res : List 
   · simp [NotPanic] at h
   · trivial
 
-theorem step_no_panic (env : Env) (nt : Ctx → Ctx × Outcome Tok) (start aug sym : Nat) (c : Cfg)
-    (hs : Structural env.g env.t start aug sym) (ht : Total env.g env.t start)
+theorem step_no_panic (env : Env) (nt : Ctx → Ctx × Outcome Tok) (autos : List Auto) (au : Auto) (hin : au ∈ autos) (start : Nat) (hstart : start = au.start) (c : Cfg)
+    (hs : Structural env.g env.t autos) (ht : Total env.g env.t start)
     (hnt : NtGood env.t nt) (hf : FInv start c) (hc : CInv env.g env.t start c.abs) :
     StepNotPanic (step env nt c) := by
   have htop := topState_abs hf.len hf.bottom
@@ -103,7 +103,7 @@ theorem step_no_panic (env : Env) (nt : Ctx → Ctx × Outcome Tok) (start aug s
     · -- reduce
       rename_i p len
       obtain ⟨hitem, pr, hpr, hrl⟩ := hs.reduce_item _ _ _ _ hmem
-      obtain ⟨hlen, h0, _, _, _, _⟩ := path_lemma env.g env.t start aug sym hs len c.abs.stack p hc.path hitem
+      obtain ⟨hlen, h0, _, _, _, _⟩ := path_lemma env.g env.t autos hs au hin start hstart len c.abs.stack p hc.path hitem
       have habs : c.abs.stack.length = c.res.length := by
         show (absStack c).length = c.res.length
         simp only [absStack, List.length_zip, List.length_map]
@@ -131,8 +131,8 @@ theorem step_no_panic (env : Env) (nt : Ctx → Ctx × Outcome Tok) (start aug s
       apply liftTok_notPanic
       exact (hnt _ (ht.goto_range _ _ _ hgoto)).1
     · -- accept
-      obtain ⟨pr, hpr, _, hitem⟩ := hs.accept_item _ _ hmem
-      obtain ⟨hlen, _⟩ := path_lemma env.g env.t start aug sym hs 1 c.abs.stack aug hc.path hitem
+      obtain ⟨au', _, pr, hpr, _, hitem⟩ := hs.accept_item _ _ hmem
+      obtain ⟨hlen, _⟩ := path_lemma env.g env.t autos hs au hin start hstart 1 c.abs.stack au'.aug hc.path hitem
       have habs : c.abs.stack.length = c.res.length := by
         show (absStack c).length = c.res.length
         simp only [absStack, List.length_zip, List.length_map]
@@ -147,8 +147,8 @@ end Rustemo
 
 namespace Rustemo
 
-theorem step_state_range (env : Env) (nt : Ctx → Ctx × Outcome Tok) (start aug sym : Nat) (c c' : Cfg)
-    (hs : Structural env.g env.t start aug sym) (ht : Total env.g env.t start)
+theorem step_state_range (env : Env) (nt : Ctx → Ctx × Outcome Tok) (autos : List Auto) (au : Auto) (hin : au ∈ autos) (start : Nat) (hstart : start = au.start) (c c' : Cfg)
+    (hs : Structural env.g env.t autos) (ht : Total env.g env.t start)
     (hnt : NtGood env.t nt) (hf : FInv start c) (hc : CInv env.g env.t start c.abs)
     (hstep : step env nt c = .next c') : c'.ctx.state < env.t.states.size := by
   have htop := topState_abs hf.len hf.bottom
@@ -190,8 +190,8 @@ theorem step_state_range (env : Env) (nt : Ctx → Ctx × Outcome Tok) (start au
                 exact hrange
     · split at hstep <;> simp at hstep
 
-theorem runLoop_no_panic (env : Env) (nt : Ctx → Ctx × Outcome Tok) (start aug sym : Nat)
-    (hs : Structural env.g env.t start aug sym) (ht : Total env.g env.t start) (hnt : NtGood env.t nt) :
+theorem runLoop_no_panic (env : Env) (nt : Ctx → Ctx × Outcome Tok) (autos : List Auto) (au : Auto) (hin : au ∈ autos) (start : Nat) (hstart : start = au.start)
+    (hs : Structural env.g env.t autos) (ht : Total env.g env.t start) (hnt : NtGood env.t nt) :
     ∀ (fuel : Nat) (c : Cfg), FInv start c → CInv env.g env.t start c.abs →
       NotPanic (runLoop env nt fuel c).2 := by
   intro fuel
@@ -200,26 +200,26 @@ theorem runLoop_no_panic (env : Env) (nt : Ctx → Ctx × Outcome Tok) (start au
   | succ n ih =>
     intro c hf hc
     unfold runLoop
-    have hsp := step_no_panic env nt start aug sym c hs ht hnt hf hc
+    have hsp := step_no_panic env nt autos au hin start hstart c hs ht hnt hf hc
     split
     · rename_i c' hstep
       obtain ⟨hf', leafOf, nodeOf, hd, hcs⟩ := step_refines env nt start c c' hf hstep
-      have hc' := cstep_preserves env.g env.t start aug sym hs leafOf nodeOf hd c.abs c'.abs c.tok.kind hc hcs
+      have hc' := cstep_preserves env.g env.t autos hs au hin start hstart leafOf nodeOf hd c.abs c'.abs c.tok.kind hc hcs
       exact ih c' hf' hc'
     · simp [NotPanic]
     · rename_i ctx o hstep
       rw [hstep] at hsp
       exact hsp
 
-theorem parseWith_no_panic (env : Env) (nt : Ctx → Ctx × Outcome Tok) (start aug sym : Nat)
-    (hs : Structural env.g env.t start aug sym) (ht : Total env.g env.t start) (hnt : NtGood env.t nt)
+theorem parseWith_no_panic (env : Env) (nt : Ctx → Ctx × Outcome Tok) (autos : List Auto) (au : Auto) (hin : au ∈ autos) (start : Nat) (hstart : start = au.start)
+    (hs : Structural env.g env.t autos) (ht : Total env.g env.t start) (hnt : NtGood env.t nt)
     (ctx0 : Ctx) (h0 : ctx0.state < env.t.states.size) (fuel : Nat) :
     NotPanic (parseWith env nt start ctx0 fuel).2 := by
   unfold parseWith
   simp only
   have hn := (hnt ctx0 h0).1
   split
-  · exact runLoop_no_panic env nt start aug sym hs ht hnt fuel _ ⟨by simp, by simp⟩
+  · exact runLoop_no_panic env nt autos au hin start hstart hs ht hnt fuel _ ⟨by simp, by simp⟩
       ⟨by simp [Cfg.abs, absStack, PathInv], by simp [Cfg.abs, absStack, yields]⟩
   · simp [NotPanic]
   · rename_i hnt1; rw [hnt1] at hn; simp [NotPanic] at hn
@@ -269,9 +269,10 @@ theorem ntGood_base (env : Env) (start : Nat) (ht : Total env.g env.t start) (pp
     exact ⟨h1, by rw [h2, hstate]⟩
 
 /-- main parser's `next_token`: the layout automaton needs its own certificates -/
-theorem ntGood_main (env : Env) (ht : Total env.g env.t 0)
+theorem ntGood_main (env : Env) (ht : Total env.g env.t 0) (autos : List Auto)
+    (hs : Structural env.g env.t autos)
     (hlay : ∀ ls, env.t.layoutState = some ls →
-      ∃ augl lsym, Structural env.g env.t ls augl lsym ∧ Total env.g env.t ls)
+      (∃ au ∈ autos, au.start = ls) ∧ Total env.g env.t ls)
     (pp : Bool) (fuel : Nat) : NtGood env.t (nextTokenMain env pp fuel) := by
   intro ctx hctx
   unfold nextTokenMain
@@ -289,10 +290,10 @@ theorem ntGood_main (env : Env) (ht : Total env.g env.t 0)
     · obtain ⟨h1, h2⟩ := noToken_good env pp ctx1 _ hget hne
       exact ⟨h1, by rw [h2, hstate]⟩
     · rename_i ls hls
-      obtain ⟨augl, lsym, hsl, htl⟩ := hlay ls hls
+      obtain ⟨⟨aul, hinl, hstl⟩, htl⟩ := hlay ls hls
       have hlp : NotPanic (layoutParse env ls ctx1 fuel).2 := by
         unfold layoutParse
-        exact parseWith_no_panic env _ ls augl lsym hsl htl (ntGood_base env ls htl true) _ htl.start_ok fuel
+        exact parseWith_no_panic env _ autos aul hinl ls hstl.symm hs htl (ntGood_base env ls htl true) _ htl.start_ok fuel
       generalize layoutParse env ls ctx1 fuel = lp at hlp
       obtain ⟨cx, r⟩ := lp
       simp only at hlp ⊢
@@ -315,11 +316,12 @@ theorem ntGood_main (env : Env) (ht : Total env.g env.t 0)
       · exact ⟨trivial, hstate⟩
 
 /-- **The LR parser model never panics.** -/
-theorem parse_no_panic (env : Env) (sym : Nat) (hs : Structural env.g env.t 0 0 sym) (ht : Total env.g env.t 0)
+theorem parse_no_panic (env : Env) (autos : List Auto) (hs : Structural env.g env.t autos)
+    (au : Auto) (hin : au ∈ autos) (h0 : 0 = au.start) (ht : Total env.g env.t 0)
     (hlay : ∀ ls, env.t.layoutState = some ls →
-      ∃ augl lsym, Structural env.g env.t ls augl lsym ∧ Total env.g env.t ls)
+      (∃ au ∈ autos, au.start = ls) ∧ Total env.g env.t ls)
     (pp : Bool) (fuel : Nat) : NotPanic (parse env pp fuel).2 := by
   unfold parse
-  exact parseWith_no_panic env _ 0 0 sym hs ht (ntGood_main env ht hlay pp fuel) {} ht.start_ok fuel
+  exact parseWith_no_panic env _ autos au hin 0 h0 hs ht (ntGood_main env ht autos hs hlay pp fuel) {} ht.start_ok fuel
 
 end Rustemo
